@@ -160,10 +160,7 @@ func keyLoaderRule(P *Program, R *Report) {
 			d := desc(a.V)
 			return strings.HasPrefix(d, "has(global:gabikeys.DefaultSystemParameters[call:big.(*Int).BitLen(new:gabikeys.PublicKey.N)])") && a.Want == True
 		}})
-		mp(P, R, rule, kPubBytes+":revocation-key", "a key is returned only if its ECDSA key parsed", fn, acc, &MustPass{Match: func(a Atom) bool {
-			_, ok := callAtom(a, Nil, "gabikeys.(*PublicKey).parseRevocationKey")
-			return ok
-		}})
+		mp(P, R, rule, kPubBytes+":revocation-key", "a key is returned only if its ECDSA key parsed", fn, acc, ecdsaParsed("PublicKey", "signed.UnmarshalPublicKey"))
 		okParams := false
 		for _, s := range sinksOf(fn) {
 			if s.target == "new:gabikeys.PublicKey.Params" && strings.HasPrefix(desc(s.val), "global:gabikeys.DefaultSystemParameters[") {
@@ -193,7 +190,7 @@ func keyLoaderRule(P *Program, R *Report) {
 			}
 			n++
 			c, _ := callAndResult(retValue(ret, 0))
-			if c == nil || calleeName(c) != kPubBytes {
+			if c == nil || !calleeIs(c, kPubBytes) {
 				ok = false
 			}
 		}
@@ -233,10 +230,7 @@ func keyLoaderRule(P *Program, R *Report) {
 		}
 		R.decide(rule, kPrivXML+":N", "N is recomputed as P*Q", got["N"] == tmul(tsym(pk+".P"), tsym(pk+".Q")).String(), got["N"], P.Pos(fn.Pos()))
 		R.decide(rule, kPrivXML+":Order", "Order is recomputed as PPrime*QPrime", got["Order"] == tmul(tsym(pk+".PPrime"), tsym(pk+".QPrime")).String(), got["Order"], P.Pos(fn.Pos()))
-		mp(P, R, rule, kPrivXML+":revocation-key", "a key is returned only if its ECDSA key parsed", fn, acc, &MustPass{Match: func(a Atom) bool {
-			_, ok := callAtom(a, Nil, "gabikeys.(*PrivateKey).parseRevocationKey")
-			return ok
-		}})
+		mp(P, R, rule, kPrivXML+":revocation-key", "a key is returned only if its ECDSA key parsed", fn, acc, ecdsaParsed("PrivateKey", "signed.UnmarshalPrivateKey"))
 	}
 	validateKeyRule(P, R, rule)
 }
@@ -289,7 +283,7 @@ func fileModeRule(P *Program, R *Report) {
 			// may reuse an existing file: chmod before write, failure => no write
 			isChmod := func(a Atom) bool {
 				cc, _ := callAndResult(a.V)
-				if cc == nil || calleeName(cc) != "(*os.File).Chmod" || a.Want != Nil {
+				if cc == nil || !calleeIs(cc, "(*os.File).Chmod") || a.Want != Nil {
 					return false
 				}
 				if cc.Call.Args[0] != ssa.Value(call) && desc(cc.Call.Args[0]) != desc(call)+"#0" {
@@ -301,7 +295,7 @@ func fileModeRule(P *Program, R *Report) {
 			// every path to the write passes a successful chmod of this file, or went through the other (exclusive) open
 			r := (&MustPass{P: P, Match: isChmod, Instr: func(_ *ssa.Function, i ssa.Instruction) bool {
 				oc, ok := i.(*ssa.Call)
-				return ok && oc != call && calleeName(oc) == "os.OpenFile"
+				return ok && oc != call && calleeIs(oc, "os.OpenFile")
 			}}).MustReach(g, writeCall)
 			R.decide(rule, key+":chmod-before-write", "an existing file may be reused (no O_EXCL): every path from this open to the write passes a successful f.Chmod(owner-only)", r.Holds, r.Path, P.Pos(c.Pos()))
 		}
@@ -333,7 +327,7 @@ func restoredFieldsRule(P *Program, R *Report) {
 			if isCallTo(c, kProofDVWC) {
 				r := (&MustPass{P: P, Match: func(a Atom) bool {
 					cc, idx := callAndResult(a.V)
-					return cc != nil && calleeName(cc) == kProofDCC && idx == 1 && a.Want == Nil
+					return cc != nil && calleeIs(cc, kProofDCC) && idx == 1 && a.Want == Nil
 				}}).MustReach(fn, c)
 				R.decide(rule, k+":contribution-before-verify", "VerifyWithChallenge runs only after ChallengeContribution (which restores the derived fields) succeeded", r.Holds, r.Path, P.Pos(c.Pos()))
 			}
@@ -614,4 +608,31 @@ func decodersKeepInputRule(P *Program, R *Report) {
 		R.decide(rule, FuncKey(fn)+":input-preserved", "the decoder leaves the bytes it was given unchanged", ok, strings.Join(why, "\n"), P.Pos(fn.Pos()))
 	}
 	R.decide(rule, "decoders:count", "decoding methods with a byte-slice input were found (>= 8)", n >= 8, fmt.Sprintf("%d", n), "")
+}
+
+// ecdsaParsed: the obligation "the key's ECDSA part was parsed", stated on the exported decoder so that it does not
+// depend on the name or shape of the unexported helper that calls it: on every accepting path the revocation key
+// was already present, or revocation is not supported by this key (no ECDSA string), or signed.Unmarshal...Key
+// returned without error.
+func ecdsaParsed(typ, unmarshal string) *MustPass {
+	obj := []string{"new:gabikeys." + typ, "<gabikeys." + typ + ">"}
+	return &MustPass{
+		Exempt: func(a Atom) bool {
+			a = normAtom(a)
+			d := desc(a.V)
+			for _, o := range obj {
+				if d == o+".ECDSA" && a.Want == NonNil {
+					return true
+				}
+				if (d == "call:gabikeys.(*"+typ+").RevocationSupported("+o+")" && a.Want == False) || (d == "(len("+o+".ECDSAString)>0)" && a.Want == False) {
+					return true
+				}
+			}
+			return false
+		},
+		Match: func(a Atom) bool {
+			c, idx := callAndResult(a.V)
+			return c != nil && calleeIs(c, unmarshal) && idx == 1 && a.Want == Nil
+		},
+	}
 }
